@@ -26,15 +26,20 @@ Returns == {<<"retnone">>, <<"retbare">>, <<"retval">>}
 \* code of an assert / `if __debug__:` block but the name stays a local of the enclosing function (the symbol table is built from the
 \* whole source): a later `zq` in that function raises UnboundLocalError, and a nested `nonlocal zq` still compiles.
 Binders == {<<"dbg_bind">>, <<"assert_bind">>}
+\* a value-less annotation `zq: int` in a function makes zq a local of it, with or without another binding; annotation removal turns it into `zq: 0`
+\* ("a value-less annotated variable stays a local")
+LocalMakers == {<<"ann_zq">>, <<"annzero_zq">>}
 ZqUsers == {<<"use_zq">>, <<"nl_zq">>}
 \* a `global zq` declaration inside an `if __debug__:` block also survives -O (it is a directive to the compiler): a later `zq = ...` in the function
 \* writes the module's zq
 Declarers == {<<"dbg_global">>}
+\* a `yield` inside an `if __debug__:` block makes the function a generator, under -O as well: S has no step that removes it
+KindMakers == {<<"dbg_yield">>}
 ZqWriters == {<<"set_zq">>}
 Symbols == {<<"pass">>, <<"ell">>, <<"imp", "a">>, <<"imp", "b">>, <<"from", "os", "x">>, <<"from", "os", "y">>, <<"from", "sys", "z">>,
             <<"assert">>, <<"dbg_else">>, <<"dbg_elif">>, <<"annval">>, <<"annnoval">>,
             <<"raise0">>, <<"raiseargs">>, <<"raisefrom">>, <<"raiseuser">>, <<"classobj">>, <<"other">>, <<"other2">>}
-           \cup Literals \cup DebugTruthy \cup DebugOther \cup Returns \cup Binders \cup ZqUsers \cup Declarers \cup ZqWriters
+           \cup Literals \cup DebugTruthy \cup DebugOther \cup Returns \cup Binders \cup ZqUsers \cup Declarers \cup ZqWriters \cup {<<"ann_zq">>} \cup KindMakers
 
 \* ---- contexts
 Contexts == {"module", "module_top", "function", "function_if", "class", "dataclass", "dataclass_if", "dataclass_second", "dataclass_call", "dataclass_name",
@@ -51,7 +56,7 @@ ClassKind(c)  == CASE c \in {"class", "class_after_dataclass"} -> "plain"
                              "dataclass_after_inner", "namedtuple_after_inner"} -> "sensitive"
                    [] OTHER -> "none"
 \* `nonlocal zq` compiles only inside a function that binds zq
-WellFormed(c, blk) == /\ \A k \in DOMAIN blk : (blk[k] \in Returns => InFunction(c))
+WellFormed(c, blk) == /\ \A k \in DOMAIN blk : (blk[k] \in Returns \cup KindMakers => InFunction(c))
                       /\ \A k \in DOMAIN blk : (blk[k] = <<"nl_zq">> => (InFunction(c) /\ \E j \in DOMAIN blk : blk[j] \in Binders))
 
 \* ---- environment facts of the enclosing module
@@ -75,7 +80,7 @@ DocstringKept(c, e, blk, i) == c = "module_top" /\ e.usesDoc /\ i = 1 /\ blk[i] 
 \* removing the binder at i keeps the scope of zq: nothing in the function looks zq up, or another binding of it stays
 ScopeKept(c, blk, i) == \/ ~InFunction(c)
                         \/ ~\E k \in DOMAIN blk : blk[k] \in ZqUsers
-                        \/ \E j \in DOMAIN blk : j # i /\ blk[j] \in Binders
+                        \/ \E j \in DOMAIN blk : j # i /\ blk[j] \in Binders \cup LocalMakers
 
 \* removing the declaration keeps the meaning of zq: nothing else in the function mentions zq
 \* (a class body is a scope of its own for this purpose: with the declaration `zq = ...` writes the module's zq, without it a class attribute)
@@ -92,6 +97,7 @@ Steps(o, c, e, blk) ==
               THEN {RemoveAt(ReplaceAt(blk, i, blk[i] \o Tail(Tail(blk[i + 1]))), i + 1)} ELSE {})
       \cup (IF AnnotationRemovable(o, c) /\ blk[i] = <<"annval">> THEN {ReplaceAt(blk, i, <<"assign">>)} ELSE {})
       \cup (IF AnnotationRemovable(o, c) /\ blk[i] = <<"annnoval">> THEN {ReplaceAt(blk, i, <<"annzero">>)} ELSE {})
+      \cup (IF AnnotationRemovable(o, c) /\ blk[i] = <<"ann_zq">> THEN {ReplaceAt(blk, i, <<"annzero_zq">>)} ELSE {})
       \cup (IF "remove_object_base" \in o /\ blk[i] = <<"classobj">> THEN {ReplaceAt(blk, i, <<"classnoobj">>)} ELSE {})
       \cup (IF "remove_explicit_return_none" \in o /\ blk[i] = <<"retnone">> THEN {ReplaceAt(blk, i, <<"retbare">>)} ELSE {})
       \cup (IF "remove_explicit_return_none" \in o /\ c = "function" /\ i = Len(blk) /\ blk[i] = <<"retbare">> THEN {RemoveAt(blk, i)} ELSE {})
@@ -143,13 +149,13 @@ M_Imports(o, blk) == IF "combine_imports" \in o THEN MergeFrom(MergeImp(blk)) EL
 Map(blk, f(_)) == [k \in DOMAIN blk |-> f(blk[k])]
 M_Annotations(o, c, blk) ==
     IF ~AnnotationRemovable(o, c) THEN blk
-    ELSE Map(blk, LAMBDA st : IF st = <<"annval">> THEN <<"assign">> ELSE IF st = <<"annnoval">> THEN <<"annzero">> ELSE st)
+    ELSE Map(blk, LAMBDA st : IF st = <<"annval">> THEN <<"assign">> ELSE IF st = <<"annnoval">> THEN <<"annzero">> ELSE IF st = <<"ann_zq">> THEN <<"annzero_zq">> ELSE st)
 M_Pass(o, c, blk) == IF "remove_pass" \in o THEN NonEmptyM(c, Filter(blk, LAMBDA st : st # <<"pass">>)) ELSE blk
 M_Object(o, blk) == IF "remove_object_base" \in o THEN Map(blk, LAMBDA st : IF st = <<"classobj">> THEN <<"classnoobj">> ELSE st) ELSE blk
 M_Asserts(o, c, blk) == IF "remove_asserts" \in o THEN NonEmptyM(c, Filter(blk, LAMBDA st : st \notin {<<"assert">>, <<"assert_bind">>})) ELSE blk
 M_Debug(o, c, blk) ==
     IF "remove_debug" \notin o THEN blk
-    ELSE NonEmptyM(c, Map(Filter(blk, LAMBDA st : st \notin DebugTruthy \cup {<<"dbg_bind">>, <<"dbg_global">>}),
+    ELSE NonEmptyM(c, Map(Filter(blk, LAMBDA st : st \notin DebugTruthy \cup {<<"dbg_bind">>, <<"dbg_global">>, <<"dbg_yield">>}),
                           LAMBDA st : IF st = <<"dbg_else">> THEN <<"nodbg">> ELSE IF st = <<"dbg_elif">> THEN <<"elif_if">> ELSE st))
 M_Return(o, c, blk) ==
     IF "remove_explicit_return_none" \notin o THEN blk
@@ -164,8 +170,10 @@ M_Brackets(o, e, blk) ==
 \* known deviation of the code from S (finding D27): the binder is removed although the function still looks the name up
 KF_D27(o, c, blk) == /\ InOwnScope(c)
                      /\ \/ /\ InFunction(c) /\ \E k \in DOMAIN blk : blk[k] \in ZqUsers
+                           /\ ~\E k \in DOMAIN blk : blk[k] \in LocalMakers
                            /\ \/ ("remove_debug" \in o /\ \E k \in DOMAIN blk : blk[k] = <<"dbg_bind">>)
                               \/ ("remove_asserts" \in o /\ \E k \in DOMAIN blk : blk[k] = <<"assert_bind">>)
+                        \/ ("remove_debug" \in o /\ \E k \in DOMAIN blk : blk[k] \in KindMakers)
                         \/ /\ "remove_debug" \in o /\ \E k \in DOMAIN blk : blk[k] = <<"dbg_global">>
                            /\ \E k \in DOMAIN blk : blk[k] \in ZqUsers \cup ZqWriters \cup Binders
 
